@@ -130,7 +130,7 @@ def findings():
             rp = json.load(f)
         res = core.execute_guarded(prop, rp['record'], timeout=1800)
         ok = any(v['sig'] == rp['signature'] for v in res['violations'])
-        print('finding %s %s: %s' % (e['property'], e['signature'], 'reproduces' if ok else 'STALE (no longer reproduces)'))
+        print('finding %s %s: %s' % (e['property'], e.get('signature') or e.get('group'), 'reproduces' if ok else 'STALE (no longer reproduces)'))
         if not ok:
             rc = core.EXIT_HARNESS
     return rc
